@@ -33,6 +33,20 @@ pub struct Group {
     pub extra_asserts: Vec<String>,
     /// largest total degree (in the late variables) of a monomial of the expanded residual
     pub late_degree: i32,
+    /// form "U": self-contained queries (uninterpreted-function / integer logic), each with the
+    /// verdict it must get
+    pub raw: Vec<RawQuery>,
+}
+
+#[derive(Serialize, Clone, Debug)]
+pub struct RawQuery {
+    pub name: String,
+    pub smt: String,
+    pub expect: String,
+}
+
+pub fn raw_group(name: &str, claim: &str, raw: Vec<RawQuery>) -> Group {
+    Group { name: name.to_string(), form: "U".into(), preamble: String::new(), items: vec![], vars: vec![], n_inverses: 0, n_terms: 0, claim: claim.to_string(), only_if_failed: None, extra_asserts: vec![], late_degree: 0, raw }
 }
 
 #[derive(Serialize, Clone, Debug)]
@@ -95,6 +109,7 @@ pub fn identity_group(name: &str, form: &str, claim: &str, items: Vec<(String, u
             only_if_failed: None,
             extra_asserts: vec![],
             late_degree: 0,
+            raw: vec![],
         }
     })
 }
@@ -224,6 +239,6 @@ pub fn rejection_query_group(name: &str, only_if_failed: &str, residual: &Lin, n
         if !nonzero.is_empty() {
             extra.push(format!("(assert (or {}))", nonzero.iter().map(|e| format!("(not (= t{} 0.0))", e)).collect::<Vec<_>>().join(" ")));
         }
-        Ok(Group { name: name.to_string(), form: "R".into(), preamble: pre, items, vars, n_inverses: ninv, n_terms, claim: claim.to_string(), only_if_failed: Some(only_if_failed.to_string()), extra_asserts: extra, late_degree: deg })
+        Ok(Group { name: name.to_string(), form: "R".into(), preamble: pre, items, vars, n_inverses: ninv, n_terms, claim: claim.to_string(), only_if_failed: Some(only_if_failed.to_string()), extra_asserts: extra, late_degree: deg, raw: vec![] })
     })
 }
